@@ -241,7 +241,7 @@ func RunCheck(p Prop, o Options) int {
 							var attribute func(c json.RawMessage, depth int) Result
 							attribute = func(c json.RawMessage, depth int) Result {
 								var sr Result
-								sr, sp = runInSubproc(sp, o.Self, p.ID(), c)
+								sr, sp = runInSubprocD(sp, o.Self, p.ID(), c, SplitDeadline)
 								if sr.Crash != "" && depth < 4 {
 									if subs := spl.Split(c); len(subs) > 0 {
 										var agg Result
@@ -262,7 +262,15 @@ func RunCheck(p Prop, o Options) int {
 								}
 								return sr
 							}
-							if subs := spl.Split(j.c); len(subs) > 0 {
+							sigOfCrash := ""
+							if len(r.Viols) > 0 {
+								sigOfCrash = r.Viols[0].Sig
+							}
+							crashMu.Lock()
+							crashAttributions[sigOfCrash]++
+							takeApart := crashAttributions[sigOfCrash] <= maxAttributions
+							crashMu.Unlock()
+							if subs := spl.Split(j.c); len(subs) > 0 && takeApart {
 								var agg Result
 								for _, sc := range subs {
 									x := attribute(sc, 1)
@@ -668,9 +676,38 @@ func (s *subproc) kill() {
 // CaseDeadline is the per-case deadline in worker mode.
 var CaseDeadline = 30 * time.Second
 
+// Deadliner is optionally implemented by sub-process props whose cases legitimately run longer.
+type Deadliner interface {
+	CaseDeadline() time.Duration
+}
+
+func deadlineOf(id string) time.Duration {
+	if d, ok := Lookup(id).(Deadliner); ok {
+		return d.CaseDeadline()
+	}
+	return CaseDeadline
+}
+
+// SplitDeadline is the deadline of a member of a crashing batch run on its own (a single
+// input takes milliseconds; a hang must not cost the batch deadline once per member).
+var SplitDeadline = 8 * time.Second
+
+// crashAttributions counts, per crash signature, how many crashing batches were taken apart;
+// after maxAttributions the remaining ones are reported at batch level.
+var (
+	crashMu           sync.Mutex
+	crashAttributions = map[string]int{}
+)
+
+const maxAttributions = 3
+
 // runInSubproc runs one case in a worker, (re)starting it as needed. A worker
 // death or deadline is turned into a violation with a crash signature.
 func runInSubproc(sp *subproc, self, id string, c json.RawMessage) (Result, *subproc) {
+	return runInSubprocD(sp, self, id, c, deadlineOf(id))
+}
+
+func runInSubprocD(sp *subproc, self, id string, c json.RawMessage, deadline time.Duration) (Result, *subproc) {
 	var err error
 	if sp == nil {
 		if sp, err = startSubproc(self, id); err != nil {
@@ -718,11 +755,11 @@ func runInSubproc(sp *subproc, self, id string, c json.RawMessage) (Result, *sub
 			return Result{Viols: []Viol{{Sig: id + "/harness/worker-protocol", What: err.Error() + ": " + trunc(string(x.line), 200)}}}, nil
 		}
 		return r, sp
-	case <-time.After(CaseDeadline):
+	case <-time.After(deadline):
 		sp.kill()
 		return Result{
 			Crash: "hang",
-			Viols: []Viol{{Sig: id + "/crash/" + crashSite(id, c) + "hang", What: fmt.Sprintf("case did not finish within %v", CaseDeadline)}},
+			Viols: []Viol{{Sig: id + "/crash/" + crashSite(id, c) + "hang", What: fmt.Sprintf("case did not finish within %v", deadline)}},
 		}, nil
 	}
 }
